@@ -154,12 +154,16 @@ theorem cp_cdMark (s : St) (p : String × IdSet) (h : CP s.tags) : CP (cdMark s 
   unfold cdMark
   split
   · exact h
-  · apply cp_map (fun _ t => cdF p.2 t) _ h
+  · apply cp_map (fun _ t => cdF s.all p.2 t) _ h
     intro k t ht
     unfold cdF
     split
-    · exact ht
-    · exact ht
+    · split
+      · exact ht
+      · exact ht
+    · split
+      · exact ht
+      · exact ht
 
 theorem cp_jobTail (X : St) (st : Started) (h : CP X.tags) : CP (jobTail X st).tags := by
   unfold jobTail
@@ -258,7 +262,8 @@ theorem cp_step (s : St) (e : Ev) (st : Started)
         · next ot hot =>
           split
           · next hd =>
-            have hd' : ot.defn = snap.defn := by simpa using hd
+            have hdg : ot.defn = snap.defn ∧ ot.gen = snap.gen := by simpa using hd
+            have hd' : ot.defn = snap.defn := hdg.1
             have hsf := hf jn snap held ot hj hot hd'
             have h1 : CP (setTag (qConv { s with jTag := none } (tdTag snap ot (ofList result)).convs
                 (tdTag snap ot (ofList result)).mat) jn (tdTag snap ot (ofList result))).tags := by
@@ -361,14 +366,15 @@ theorem cp_step (s : St) (e : Ev) (st : Started)
             · split
               · exact h
               · dsimp only
-                have hp1 : (atPair s (atTag color defn f isMark) f isMark).1 = s := by
+                have hp1 : (atPair s (atTagG s.ngen color defn f isMark) f isMark).1 = s := by
                   unfold atPair; split <;> rfl
-                have hp2 : (atPair s (atTag color defn f isMark) f isMark).2.convs = [] := by
+                have hp2 : (atPair s (atTagG s.ngen color defn f isMark) f isMark).2.convs = [] := by
                   unfold atPair; split <;> rfl
                 rw [hp1]
                 unfold atFinish
                 apply cp_foldl _ (fun s r hs => cp_addRefBy s r name hs)
-                have hb : CP (setTag s name (atPair s (atTag color defn f isMark) f isMark).2).tags :=
+                have hb : CP (setTag { s with ngen := s.ngen + 1 } name
+                    (atPair s (atTagG s.ngen color defn f isMark) f isMark).2).tags :=
                   cp_sins h _ _ (fun hc => absurd hp2 hc)
                 split
                 · exact hb
